@@ -36,8 +36,8 @@ def install(R):
 
     R.add(M + "auto_add_extension", result="str", props=["C14", "C05"], types={"file_name": "str", "engine": "str"},
           requires=[("engine", "KnownEngine(engine)")],
-          ensures=[("kept_if_it_has_one", "implies(HasKnownExtension(file_name), result == file_name)"),
-                   ("added_otherwise", "implies(not HasKnownExtension(file_name), result == file_name + ExtOf(engine))"),
+          ensures=[("kept_if_it_has_one", "implies(HasKnownExtension(old(file_name)), result == old(file_name))"),
+                   ("added_otherwise", "implies(not HasKnownExtension(old(file_name)), result == old(file_name) + ExtOf(engine))"),
                    ("idempotent", "HasKnownExtension(result)")])
     return R
 
@@ -411,7 +411,7 @@ def install_harvester2(R):
     def new_data(eng, fr):
         """the (possibly converted / chunked) new dataset that takes part in the merge"""
         st = fr.st
-        return st.env["new_ds"]
+        return getattr(st, "final_params", {}).get("new_ds", st.env["new_ds"])
     S["NewData"] = new_data
 
     lf = R.get(FARM + "Harvester.load_full_ds")
